@@ -7,7 +7,7 @@
    is a correspondence-level check, not yet a theorem for all circuits. *)
 From Coq Require Import ZArith QArith Bool List.
 From PV Require Import Base.Num Base.Outcome Circuit.ElemState Circuit.Tree Circuit.Token Circuit.Parser Circuit.Parser_facts.
-From PV Require Import Circuit.Registry Circuit.Printer Circuit.Token_decode Circuit.Printer_lex Circuit.Parser_basic Circuit.Parser_mono gen.Classes_gen.
+From PV Require Import Circuit.Registry Circuit.Printer Circuit.Token_decode Circuit.Printer_lex Circuit.Parser_basic Circuit.Parser_mono Circuit.Token_ws Circuit.Parser_ws gen.Classes_gen.
 Import ListNotations.
 
 (* A container's sub-circuit — in either written form — and a whole parameter block consume only what follows
@@ -70,6 +70,17 @@ Theorem C03_basic_round_trip_parse :
   forall k, parse reg (to_string reg None c (pf + k)) = Ok (top n').
 Proof. exact basic_parse_any_fuel. Qed.
 Print Assumptions C03_basic_round_trip_parse.
+
+(* White space (one of the alternative spellings): any amount of white space before each bracket and symbol of the printed text and at
+   its end changes neither the tokens nor the parsed tree. *)
+Theorem C03_basic_whitespace_insensitive :
+  forall reg, syms_valid reg = true -> syms_unique reg = true ->
+  forall pf c n', pconn reg pf c = Some n' -> (2 * pf <= depth_budget)%nat ->
+  forall (wits : list (str * item)) (trail : str),
+  map snd wits = conn_items pf reg c -> forallb all_ws (map fst wits) = true -> all_ws trail = true ->
+  exists ts, tokenize (spaced_text wits trail) = Ok ts /\ parse_tokens reg ts = Ok (top n').
+Proof. exact basic_spaced_round_trip. Qed.
+Print Assumptions C03_basic_whitespace_insensitive.
 
 (* non-vacuity: the live registry meets the hypotheses, and a nested tree over it (series in parallel in series, a nested
    same-kind connection that is merged, a one-element series that is unwrapped) has a parse result *)
